@@ -4,10 +4,10 @@ sweep(stop): for every loop iteration of a scenario's run, deliver SIGTERM at th
 select phase (where a real loop would see the self-pipe become readable); let the worker
 return; settle; then compare the broker state with the lifecycle model.
 """
-from __future__ import annotations
-
 import asyncio
 import re
+
+from repid import MessageDependency
 
 from ..explore import Acc, digest
 from ..harness import BASIC, SIGTERM, Exec, actor_log, actor_runs
@@ -36,6 +36,7 @@ ACTORS = {
     "fail_nack": (0.010, True, False),
     "recurring": (0.010, False, True),
     "result": (0.010, False, False),
+    "eager_ack": (0.010, False, False),  # the actor acknowledges by itself (await m.ack())
 }
 SLACK = 5 + 1 + 0.5
 TIMEOUT = 600.0
@@ -92,7 +93,18 @@ def execute(scn, k=None, deviations=None, slip=None):
             actor_log(w, mid, "ok")
             return i
 
-        worker.actor(job, name="job", queue="q", converter=BASIC,
+        async def job_eager(i: int, m: MessageDependency):
+            mid = f"m{i}"
+            actor_log(w, mid, "start")
+            try:
+                await asyncio.sleep(dur)
+            except asyncio.CancelledError:
+                actor_log(w, mid, "cancelled")
+                raise
+            actor_log(w, mid, "ok")
+            await m.ack()
+
+        worker.actor(job_eager if scn["actor"] == "eager_ack" else job, name="job", queue="q", converter=BASIC,
                      retry_policy=lambda retry_number=1: __import__("datetime").timedelta(seconds=7))
 
         p0 = {}
@@ -383,7 +395,7 @@ def jobs(tier):
             out.append(dict(scn=scn, ks=list(range(lo, min(lo + chunk, nk))), slips=True))
     # second deviation: the stop instant combined with one reordered / stalled server request
     for kind in ("redis", "amqp"):
-        for actor in ("long", "fail_retry", "recurring") if tier == "thorough" else ("long",):
+        for actor in ("long", "fail_retry", "recurring", "eager_ack") if tier == "thorough" else ("long", "eager_ack"):
             for g in (0.0, 0.02) if tier == "thorough" else (0.0,):
                 if True:
                     scn = dict(kind=kind, g=g, actor=actor, load=3, stop="signal", server_choices=True)
@@ -453,7 +465,8 @@ def run_job(job):
         acc.outcomes.add(digest([scn["kind"], scn["actor"], scn["load"], r["obs"], r["viol"] and sorted(set(v[0] for v in r["viol"]))]))
         for sig, what in r["viol"]:
             acc.violations.append(dict(
-                signature=f"{scn['kind']} {sig} stop-during={r.get('phase')}" + (" +server-deviation" if dev else ""),
+                signature=f"{scn['kind']} {sig} stop-during={r.get('phase')}" + (" +server-deviation" if dev else "")
+                          + (" eager-response" if scn["actor"] == "eager_ack" else ""),
                 what=what + f" [stop at iteration {k}, time slip {slip}, server deviations {dev}, scenario {scn}]",
                 job=dict(scn=scn, ks=[], one=[k, slip], dev=dev),
                 detail=dict(obs=r["obs"], exc=r.get("exc_log")),
